@@ -833,6 +833,15 @@ class Einsum(EvalableModel):
             for t in evaluated.tensor_accesses:
                 if t.name in persistent_set:
                     t.persistent = True
+            # Keep the "Persistent" set in step with the flags just set
+            for rename in evaluated.renames:
+                if rename.name == "Persistent":
+                    rename.source = InvertibleSet(
+                        instance=oset(
+                            t.name for t in evaluated.tensor_accesses if t.persistent
+                        ),
+                        **kwargs_tensors,
+                    )
 
         return evaluated, symbol_table
 
